@@ -10,6 +10,11 @@ CLAIMED = {
    note="Model hand-written; the tie is differential testing (volumes in evidence). struct.pack('B') and Python int arithmetic trusted. Hangs are observed under a timer budget.",
    technique="Lean 4 proof (induction on n / on the byte list) + model-vs-code correspondence",
    design="5/C03"),
+ 'C01': dict(
+   text="Lean theorems, for every zlib (as a parameter with inflate(deflate x)=x), every threshold (none / any Int), every packet list, every segmentation of the byte stream and every cipher pair satisfying the stream-cipher laws (CFB8 proved to satisfy them in C18): the reader's result depends only on the concatenated bytes; reading the written frames returns exactly the written (id, payload) list then EOF; any frame is consumed whole whatever its id; the three threshold regimes produce exactly the documented headers. Correspondence: real Packet.write / PacketReactor.read_packet vs the model on sequences x thresholds x cipher x segmentations.",
+   note="zlib and the AES block function are parameters; socket.send is all-or-nothing (pyCraft ignores send's return value: assumption, not modelled); payload of unknown-id packets is not retained by pyCraft, so only id + successors are observable for them.",
+   technique="Lean 4 proof (induction over streams/segmentations, parametric in zlib and cipher) + correspondence",
+   design="5/C01"),
  'C04': dict(
    text="Lean theorems for all in-range triples and both layouts: encode/decode are exact inverses, the 64-bit word has exactly the prescribed x|z|y / x|y|z arithmetic layout (stated with %,*,+ only), every 64-bit word is a position; same for chunk-section (22/22/20) and multi-block records on both sides of 741. Which layout each of the 369 known versions uses is tabulated from the live codec on every run and decided in the kernel: single switch-over, new from 477, old up to 404.",
    note="Hand model tied by byte-level correspondence on versions x boundary product x words; version->layout by total tabulation (probe of the real codec). struct.pack('>Q') trusted.",
@@ -25,6 +30,11 @@ CLAIMED = {
    note="hashlib.sha1, str.encode, int.from_bytes/format are compared against the Lean implementation, not proved.",
    technique="Lean 4 proof + kernel-evaluated vectors + correspondence against an independent Lean SHA-1",
    design="5/C17"),
+ 'C18': dict(
+   text="Lean theorems for EVERY block function, register, byte string and split: CFB8 chunking (a++b = a then b), n-ary chunk independence, decrypt inverts encrypt under any chunking on either side, output length = input length; the wrapper model over any interleaving of send/recv/read yields per direction exactly CFB8(reg=secret) of the concatenated stream, directions independent; an executable Lean AES-128 with the S-box proved equal to its algebraic definition and kernel-checked FIPS-197 / SP 800-38A CFB8 vectors. Correspondence: real wrappers over `cryptography` vs Lean AES-CFB8 vs a pure-Python AES-CFB8; RSA PKCS#1 v1.5 recovery by an independent textbook decryptor for token lengths 1..64 under 1024/2048-bit keys; secret = one fresh 16-byte os.urandom draw.",
+   note="AES/RSA correctness of `cryptography` is compared (three implementations pairwise), not proved; unpredictability is os.urandom's.",
+   technique="Lean 4 proof (generic over the block function) + kernel-evaluated NIST vectors + three-way correspondence",
+   design="5/C18"),
  'C19': dict(
    text="Lean model of every AuthenticationToken operation as Token -> Reply -> Token x Outcome x Request?; theorems for all tokens/replies/arguments: authenticated-iff, error replies raise with status+fields (or malformed) and preserve the token, validate true iff 204 and never alters, join refuses offline without a request, success stores exactly, payload shape per endpoint, refusals send nothing. Correspondence: the real class against a local http.server stand-in over operation sequences.",
    note="HTTP encoding is requests'; JSON member values restricted to strings/absent in the model; the stand-in serves no body on 204.",
